@@ -72,7 +72,7 @@ def instances(tier, seed):
         if tier == "quick":
             return 3
         return {2: 4, 3: 4, 4: 3}.get(len(ml), 2)          # |members|^H access histories per parse path
-    MINSZ = {"nt": 1, "ntic": 1, "prevar": 1, "u8": 1, "u16": 2, "kw": 0, "pre": 1, "var": 1, "prefix3": 3, "parr": 1, "pad": 3, "cst": 1, "parrvar": 1, "dflt": 1, "opt": 0, "acst": 1, "apad": 1, "arrpre": 2, "alpre": 2}
+    MINSZ = {"nt": 1, "ntic": 1, "prevar": 1, "u8": 1, "u16": 2, "kw": 0, "pre": 1, "var": 1, "prefix3": 3, "parr": 1, "pad": 3, "cst": 1, "parrvar": 1, "dflt": 1, "opt": 2, "acst": 1, "apad": 1, "arrpre": 2, "alpre": 2}
 
     def need(ml):
         return sum(MINSZ[k] for k in ml)
